@@ -1184,14 +1184,6 @@ func TestCheck(t *testing.T) {
 		}
 		return false
 	}
-	tl0 := time.Now()
-	if !skip("lifecycle") {
-		runLifecycle(t, r) // the sender goes away at every stage of the handler (lifecycle_test.go)
-	}
-	tl1 := time.Now()
-	if !skip("declared") {
-		runDeclared(t, r) // every option of every auth directive x every way of writing its value (declared_test.go)
-	}
 	t0 := time.Now()
 	if !skip("tolerance") {
 		runTolerance(t, r)
@@ -1203,6 +1195,15 @@ func TestCheck(t *testing.T) {
 	t2 := time.Now()
 	if !skip("hmac") {
 		runHMAC(t, r, deadline)
+	}
+	// the parts below come after the wall-budgeted HMAC part, so that they do not eat into that budget on a loaded machine
+	tl0 := time.Now()
+	if !skip("lifecycle") {
+		runLifecycle(t, r) // the sender goes away at every stage of the handler (lifecycle_test.go)
+	}
+	tl1 := time.Now()
+	if !skip("declared") {
+		runDeclared(t, r) // every option of every auth directive x every way of writing its value (declared_test.go)
 	}
 	t3 := time.Now()
 	if !skip("reload-ext-seq") {
@@ -1216,7 +1217,7 @@ func TestCheck(t *testing.T) {
 	if !skip("reload-ext-sched") {
 		runExtSched(t, r)
 	}
-	r.Set("wall_parts", fmt.Sprintf("lifecycle=%.1fs declared=%.1fs tolerance=%.1fs reload-seq=%.1fs hmac=%.1fs reload-ext-seq=%.1fs reload-sched=%.1fs reload-ext-sched=%.1fs", tl1.Sub(tl0).Seconds(), t0.Sub(tl1).Seconds(), t1.Sub(t0).Seconds(), t2.Sub(t1).Seconds(), t3.Sub(t2).Seconds(), t4.Sub(t3).Seconds(), t5.Sub(t4).Seconds(), time.Since(t5).Seconds()))
+	r.Set("wall_parts", fmt.Sprintf("lifecycle=%.1fs declared=%.1fs tolerance=%.1fs reload-seq=%.1fs hmac=%.1fs reload-ext-seq=%.1fs reload-sched=%.1fs reload-ext-sched=%.1fs", tl1.Sub(tl0).Seconds(), t3.Sub(tl1).Seconds(), t1.Sub(t0).Seconds(), t2.Sub(t1).Seconds(), tl0.Sub(t2).Seconds(), t4.Sub(t3).Seconds(), t5.Sub(t4).Seconds(), time.Since(t5).Seconds()))
 
 	r.Set("rule", "complete finite products, one real request per element through the ingress handler wired by startServers from DSL text. "+
 		"HMAC = {secret set: 1 inline | 2 overlapping secret_ref versions | inline+version (thorough: 3 adjacent versions with an open end, 1 s tolerance)} x {header names: default | custom} x "+
